@@ -35,6 +35,16 @@ func main() {
 		}
 		return
 	}
+	if len(os.Args) >= 2 && os.Args[1] == "slices" {
+		prog, err := core.Load("/repo")
+		if err != nil {
+			fmt.Println(err)
+			os.Exit(2)
+		}
+		rules.DebugSlices(prog)
+		rules.DebugPanics(prog)
+		return
+	}
 	if len(os.Args) < 3 || os.Args[1] != "check" {
 		var ids []string
 		for id := range rules.Registry {
